@@ -249,9 +249,12 @@ def extract_fn(relpath, qual, ann):
     # closures
     for k, ctext in (ann.get("closures") or {}).items():
         k, want = _closure_key(k)
-        if k < len(it["closures"]) and want is not None and _closure_params(it["closures"][k], src) != want:
-            ed.log.append({"file": relpath, "line": _srcline(src, s0), "rule": "A1", "note": f"closure annotation #{k} not applied: closure #{k} of {qual} has parameters {_closure_params(it['closures'][k], src)}, the annotation was written for {want}"})
-            continue
+        ren = {}
+        if k < len(it["closures"]) or want:
+            res = _resolve_closure(it["closures"], k, want, src, qual, ed, relpath, _srcline(src, s0))
+            if res is not None:
+                k, ren = res
+                ctext = _rename_words(ctext, ren)
         if k >= len(it["closures"]):
             # the annotated closure no longer exists (e.g. an `update(|c| ..)` replaced by a plain `save`): nothing to annotate;
             # the function is verified without it and its contract decides
@@ -315,21 +318,18 @@ def extract_fn(relpath, qual, ann):
         b1 = it["loops"][k]["body"][1]
         ed.add(b1 - 1, b1 - 1, "\n" + ptext.rstrip() + "\n", "A1")
     for name, ptext in (ann.get("before_let") or {}).items():
-        occ = 0
-        if "#" in name:
-            name, occ = name.split("#"); occ = int(occ)
-        hits = [l for l in it["lets"] if l["name"] == name]
-        if occ >= len(hits):
-            raise Inconclusive(f"anchor lost: let {name}#{occ} of {qual}")
-        ed.add(hits[occ]["span"][0], hits[occ]["span"][0], ptext.rstrip() + "\n", "A1")
+        h = _pick_let(it["lets"], name, src, qual)
+        ed.add(h["span"][0], h["span"][0], ptext.rstrip() + "\n", "A1")
     for name, ptext in (ann.get("after_let") or {}).items():
-        occ = 0
-        if "#" in name:
-            name, occ = name.split("#"); occ = int(occ)
-        hits = [l for l in it["lets"] if l["name"] == name]
-        if occ >= len(hits):
-            raise Inconclusive(f"anchor lost: let {name}#{occ} of {qual}")
-        ed.add(hits[occ]["span"][1], hits[occ]["span"][1], "\n" + ptext.rstrip() + "\n", "A1")
+        h = _pick_let(it["lets"], name, src, qual)
+        ed.add(h["span"][1], h["span"][1], "\n" + ptext.rstrip() + "\n", "A1")
+    _cut = None
+    if ann.get("slice_before"):
+        _h = [x for x in it["stmts"] if re.sub(r"\s+", " ", src[x["span"][0]:x["span"][1]].decode()).startswith(ann["slice_before"])]
+        _cut = _h[0]["span"][0] if len(_h) == 1 else None
+    elif ann.get("slice_k") is not None and int(ann["slice_k"]) < len(it["stmts"]):
+        _cut = it["stmts"][int(ann["slice_k"])]["span"][0]
+    _check_loops_covered(it["loops"], ann, qual, cut=_cut)
     apply_maploops(ed, it, it["closures"], src, ann, qual, relpath)
     apply_forloops(ed, it["loops"], src, ann, qual)
     apply_fund_sums(ed, src, s0, e0)
@@ -520,6 +520,35 @@ def _closure_key(k):
     return int(parts[0]), ([x.strip() for x in parts[1].split(",") if x.strip()] if len(parts) > 1 and parts[1].strip() != "-" else ([] if len(parts) > 1 else None))
 
 
+def _resolve_closure(closures, k, want, src, where, ed, relpath, line):
+    """Which closure a `//@closure k a,b` annotation belongs to, and how its parameter names map to the current ones.
+    1. closure #k has the recorded parameters -> it; 2. exactly one closure has them -> that one (ordinals shifted because a closure was
+    added or removed before it); 3. closure #k has the same NUMBER of parameters -> the parameters were renamed: the annotation is applied
+    with the names substituted; 4. otherwise the anchor is lost (INCONCLUSIVE) - never 'verify without the annotation', which would
+    turn a harmless edit into a failed proof."""
+    if want is None:
+        return (k, {}) if k < len(closures) else None
+    if k < len(closures) and _closure_params(closures[k], src) == want:
+        return k, {}
+    same = [j for j, c in enumerate(closures) if _closure_params(c, src) == want]
+    if len(same) == 1:
+        ed.log.append({"file": relpath, "line": line, "rule": "A1", "note": f"closure annotation #{k} of {where} applied to closure #{same[0]} (the one with parameters {want}; ordinals shifted)"})
+        return same[0], {}
+    if k < len(closures) and len(_closure_params(closures[k], src)) == len(want) and want:
+        have = _closure_params(closures[k], src)
+        if all(re.match(r"^\w+$", h) for h in have):
+            ed.log.append({"file": relpath, "line": line, "rule": "A1", "note": f"closure annotation #{k} of {where}: parameters renamed {want} -> {have}, names substituted in the annotation"})
+            return k, dict(zip(want, have))
+    raise Inconclusive(f"anchor lost: closure #{k} of {where} (annotation written for parameters {want})")
+
+
+def _rename_words(text, ren):
+    for a, b in ren.items():
+        if a != b:
+            text = re.sub(r"\b%s\b" % re.escape(a), b, text)
+    return text
+
+
 def _closure_params(c, src):
     out = []
     for p in c["params"]:
@@ -528,6 +557,44 @@ def _closure_params(c, src):
         t = re.sub(r"^mut\s+", "", t)
         out.append(t)
     return out
+
+
+def _check_loops_covered(loops, ann, qual, inside=lambda sp: True, cut=None):
+    """Every real loop of an extracted function must carry an annotation (an invariant): a loop the unit does not know about (added by an
+    edit, or an iterator chain rewritten as a loop) cannot be verified, and a proof that fails for want of an invariant is not a violation."""
+    covered = set()
+    for key in ("loops", "forloops", "loopheads", "looptails"):
+        for k in (ann.get(key) or {}):
+            covered.add(int(str(k).split()[0]))
+    for j, l in enumerate(loops):
+        if not inside(l["span"]) or (cut is not None and l["span"][0] >= cut):
+            continue
+        if j not in covered:
+            raise Inconclusive(f"loop #{j} of {qual} has no invariant annotation (a loop the unit was not written for)")
+
+
+def _pick_let(lets, key, src, qual, inside=lambda sp: True):
+    """Resolve a `//@before` / `//@after` anchor: `name` (first let of that name), `name#k` (k-th), or `name~TEXT` (the unique let of that
+    name whose statement contains TEXT, whitespace-insensitive: survives lets of the same name being added, removed or renamed elsewhere)."""
+    occ, want = 0, None
+    name = key
+    if "~" in key:
+        name, want = key.split("~", 1)
+        want = re.sub(r"\s+", "", want)
+    elif "#" in key:
+        name, occ = key.split("#"); occ = int(occ)
+    hits = [l for l in lets if l["name"] == name.strip() and inside(l["span"])]
+    if want is not None:
+        hits = [l for l in hits if want in re.sub(r"\s+", "", src[l["span"][0]:l["span"][1]].decode())]
+        if len(hits) != 1:
+            raise Inconclusive(f"anchor lost: let {key} of {qual} ({len(hits)} candidates)")
+        return hits[0]
+    if "#" not in key and len(hits) > 1:
+        # a plain name must be unique: with several lets of that name the hint could land on the wrong one (a failed hint is not a violation)
+        raise Inconclusive(f"anchor lost: let {key} of {qual} is ambiguous ({len(hits)} lets of that name; use name~TEXT)")
+    if occ >= len(hits):
+        raise Inconclusive(f"anchor lost: let {key} of {qual}")
+    return hits[occ]
 
 
 def apply_ref_closure_params(ed, closures, src, ann):
@@ -1108,11 +1175,11 @@ def extract_segment(relpath, qual, ann):
     apply_ref_closure_params(ed, seg_closures, src, ann)
     for k, ctext in (ann.get("closures") or {}).items():
         k, want = _closure_key(k)
-        if k < len(seg_closures) and want is not None and _closure_params(seg_closures[k], src) != want:
-            ed.log.append({"file": relpath, "line": _srcline(src, s0), "rule": "A1", "note": f"closure annotation #{k} not applied: closure #{k} of the segment of {qual} has parameters {_closure_params(seg_closures[k], src)}, the annotation was written for {want}"})
-            continue
-        if k >= len(seg_closures):
+        res = _resolve_closure(seg_closures, k, want, src, f"segment of {qual}", ed, relpath, _srcline(src, s0))
+        if res is None:
             raise Inconclusive(f"anchor lost: closure #{k} of segment of {qual}")
+        k, ren = res
+        ctext = _rename_words(ctext, ren)
         c = seg_closures[k]
         CLOSURE_SEEN.append((ann.get("seg_name") or qual, k, _closure_params(c, src)))
         if c["ret"] is not None:
@@ -1138,13 +1205,11 @@ def extract_segment(relpath, qual, ann):
         elif a["path"] in ("allow", "doc"):
             ed.add(a["span"][0], a["span"][1], "", None)
     for name, ptext in (ann.get("before_let") or {}).items():
-        hits = [l for l in it["lets"] if l["name"] == name and inside(l["span"])]
-        if not hits: raise Inconclusive(f"anchor lost: let {name} in segment of {qual}")
-        ed.add(hits[0]["span"][0], hits[0]["span"][0], ptext.rstrip() + "\n", "A1")
+        h = _pick_let(it["lets"], name, src, f"segment of {qual}", inside)
+        ed.add(h["span"][0], h["span"][0], ptext.rstrip() + "\n", "A1")
     for name, ptext in (ann.get("after_let") or {}).items():
-        hits = [l for l in it["lets"] if l["name"] == name and inside(l["span"])]
-        if not hits: raise Inconclusive(f"anchor lost: let {name} in segment of {qual}")
-        ed.add(hits[0]["span"][1], hits[0]["span"][1], "\n" + ptext.rstrip() + "\n", "A1")
+        h = _pick_let(it["lets"], name, src, f"segment of {qual}", inside)
+        ed.add(h["span"][1], h["span"][1], "\n" + ptext.rstrip() + "\n", "A1")
     for (rule, old, new) in ann.get("replaces") or []:
         ob = old.strip().encode(); body = src[s0:e0]; cnt = body.count(ob)
         every = rule.endswith(" all"); optional = rule.endswith(" opt"); rule = rule.split()[0]
@@ -1176,6 +1241,7 @@ def extract_segment(relpath, qual, ann):
         k = int(k)
         if k >= len(seg_loops): raise Inconclusive(f"anchor lost: loop #{k} of segment of {qual}")
         ed.add(seg_loops[k]["body"][1] - 1, seg_loops[k]["body"][1] - 1, "\n" + ptext.rstrip() + "\n", "A1")
+    _check_loops_covered(seg_loops, ann, f"segment {ann.get('seg_name')} of {qual}")
     apply_maploops(ed, it, seg_closures, src, ann, qual, relpath)
     apply_forloops(ed, seg_loops, src, ann, qual)
     apply_fund_sums(ed, src, s0, e0)
